@@ -5,17 +5,61 @@ JUDGE = ("judge.J14", "J14.judge_i")
 JUDGE_IMPORTS = ("From NSQV Require Import model.Names model.Lookupd model.LookupSpec.",)
 JUDGE_SCOPE = "N_scope"
 REPO_BINS = []
-RULE = "stub"
-TRUSTED = []
-ASSUMPTIONS = []
-LEVEL_TEXT = "stub"
-LEVEL_NOTE = "stub"
-TECHNIQUE = "stub"
+RULE = ("(a) seeded histories (8-32 operations, 1-4 producer connections that are re-dialled after a disconnect or a refused command, durable and "
+        "#ephemeral topics/channels, ~4% invalid names, IDENTIFY with missing fields, repeated IDENTIFY, commands before IDENTIFY, unregistering "
+        "things never registered, admin create/delete topic/channel incl. missing/invalid arguments and the wildcard topic, tombstones by node "
+        "(two connections may share broadcast_address:http_port), time steps that cross the tombstone lifetime and the inactivity timeout under "
+        "six (timeout, lifetime) configurations) plus 6 fixed scenarios, driven against a real in-process nsqlookupd over TCP/HTTP; after EVERY "
+        "operation /topics, /lookup and /channels for 5 topics (incl. an unknown one and the wildcard), /nodes and /debug are fetched and compared "
+        "as multisets with the model; a history is cut into cases of 3 consecutive observed steps (the earlier operations are replayed by the judge); "
+        "(b) breadth-first enumeration of every history over {2 producers, 2 topics (one ephemeral), 2 channels (one ephemeral), all admin calls, "
+        "tombstones of both nodes, two time steps} = 48 operations, extending one representative of every distinct registry state (quick: length <= 2, "
+        "thorough: length <= 5), views compared after the last step; (c) 4 producers registering/unregistering concurrently with a reader hammering "
+        "/lookup and /nodes, final views compared with the sequential model. A case is non-trivial when at least one REGISTER succeeded; distinct = distinct terms.")
+TRUSTED = [
+    "modelled, not verified: Go map semantics (association lists; iteration order treated as arbitrary: every list-valued answer is compared as a multiset), "
+    "sync.RWMutex of RegistrationDB (the model is sequential; profile (c) checks that concurrent registrations are not lost), net/http + httprouter, "
+    "encoding/json (the IDENTIFY body is decoded by the real library; the model receives the decoded fields), bufio/net",
+    "time: the model has explicit time; the driver makes time pass with the verif hook NSQLookupd.VerifShiftClock (moves every lastUpdate/tombstonedAt "
+    "into the past by exactly d) and keeps the real duration of a history below 2 s while every threshold is >= 2 s away from any reachable age "
+    "(ages are multiples of a unit u with threshold mod u >= 2 s); histories that take longer are dropped and counted",
+    "hook /repo/nsqlookupd/verif_hooks.go (build tag verif): VerifShiftClock, VerifRegistrationCount",
+]
+ASSUMPTIONS = [
+    "C14 'partial': RegistrationDB locking / truly concurrent histories are not modelled (sequential model; the concurrent profile only checks final states of commuting operations)",
+    "the behaviour exactly AT a threshold (age == timeout to the nanosecond) is proved on the model (<= / <) but cannot be driven on the real clock",
+    "the tombstone request whose topic argument is the wildcard '*' (not an nsqadmin request) marks one registration per node chosen by Go map iteration order: excluded from the deterministic spec (op_det); /lookup with the wildcard is checked against lower/upper bounds",
+]
+LEVEL_TEXT = ("Machine-checked proof (Coq 8.16.1) that nsqlookupd's RegistrationDB and its TCP/HTTP handlers, transcribed as an executable Gallina model "
+              "(association-list DB with AddProducer/RemoveProducer/FindRegistrations/FindProducers/FilterByActive/IsTombstoned as in registration_db.go; "
+              "IDENTIFY/REGISTER/UNREGISTER/PING/IOLoop-exit; the five admin handlers; explicit time), refine a plain registry specification "
+              "(connected nodes, key sets, (key,producer) relation, tombstone marks with times): abs(step s op) == g_step(abs s) op for every state "
+              "satisfying the invariant and every operation, hence for every history; the answers of /topics, /channels, /lookup (found / channels / "
+              "producers) and /nodes (nodes, their topics, tombstone flags) are exactly the specification's sets, without duplicates; corollaries in the "
+              "property's words: producers = connected & last_update within the inactivity timeout & registered & not (tombstoned & age < lifetime); "
+              "Disconnect removes a node from every list at once and touches nobody else; a tombstone changes only the named (producer, topic), lapses at "
+              "the lifetime, is cleared by that producer's UNREGISTER of the topic and not by REGISTER; an ephemeral topic key leaves with its last UNREGISTER "
+              "(not on disconnect). Tied to the source by generated route/dispatch/handler-summary tables and by differential correspondence on a real in-process nsqlookupd.")
+LEVEL_NOTE = ("Trusted: Coq kernel + vm_compute; gotables; the verif clock hook; Go maps/mutex/json/http modelled. Correspondence is sampled "
+              "(random + exhaustive small scope); the theorems are not. Concurrency and exact-threshold instants are partial (see assumptions).")
+TECHNIQUE = "Coq refinement proof (data structure -> abstract registry, invariant, all histories) + differential correspondence on the real daemon"
 DESIGN_REF = "DESIGN.md §5 C14"
 
 
 def drivers():
-    def args(tier, seed, scale):
-        n = (90 if tier == "quick" else 1500) * scale
+    def registry(tier, seed, scale):
+        n = (90 if tier == "quick" else 1200) * scale
         return ["-profile", "registry", "-n", str(n), "-seed", str(seed)]
-    return [{"driver": "lookupdrive", "args": args, "replay_args": lambda tier: []}]
+
+    def exhaustive(tier, seed, scale):
+        if tier == "quick":
+            return ["-profile", "exhaustive", "-depth", "2", "-max-cases", str(600 * scale)]
+        return ["-profile", "exhaustive", "-depth", "5", "-max-cases", "30000", "-workers", "8"]
+
+    def concurrent(tier, seed, scale):
+        n = (2 if tier == "quick" else 40) * scale
+        return ["-profile", "concurrent", "-n", str(n), "-seed", str(seed)]
+
+    return [{"driver": "lookupdrive", "args": registry, "replay_args": lambda tier: []},
+            {"driver": "lookupdrive", "args": exhaustive, "replay_args": lambda tier: []},
+            {"driver": "lookupdrive", "args": concurrent, "replay_args": lambda tier: []}]
